@@ -34,6 +34,164 @@ def listing_program(e):
                         "arr = std.array.map (fun x => x.field) (std.record.to_array r), n = std.array.length (std.record.values r) }" % src)
 
 
+# ------------------------------------------------------------------ dictionary-API stream (direct oracle only)
+# Names chosen so that every plausible "smarter" ordering (numeric-aware, case-insensitive, locale, trimmed, ...)
+# identifies or reorders some of them: distinct strings that denote the same number, differ by case, padding, sign.
+DICT_NAMES = ["a", "b", "B", "A", "c1", "c10", "c9", "7", "07", "+7", "007", "10", "9", "1", "+1", "01", "-1", "1.0",
+              "x y", " a", "a ", "\u00e9", "e", "_z", "Z", "z", "a_b", "a-b", "ab", "", "0", "00"]
+
+
+def _q(name):
+    return '"%s"' % name
+
+
+def gen_dict_program(rng):
+    """2-3 operands; each = record literal piped through dictionary operations (which freeze / rebuild the field
+    map); operands have disjoint fields (or a common field with the same value) so that the merge succeeds.
+    Returns the abstract program (list of (literal fields, ops))."""
+    pool = list(DICT_NAMES)
+    # bias: make sure clashing spellings meet in one program
+    for i in range(len(pool) - 1, 0, -1):
+        j = rng.below(i + 1)
+        pool[i], pool[j] = pool[j], pool[i]
+    if rng.chance(1, 2):
+        fam = [["7", "07", "+7", "007"], ["1", "+1", "01", "1.0"], ["a", "A", " a", "a "], ["b", "B"], ["z", "Z", "_z"], ["0", "00", ""],
+               ["c1", "c10", "c9"], ["10", "9"]][rng.below(8)]
+        pool = fam + [x for x in pool if x not in fam]
+    nops = rng.range(2, 3)
+    operands = []
+    val = [0]
+
+    def fresh_val():
+        val[0] += 1
+        return val[0]
+    for _ in range(nops):
+        nf = rng.range(1, 3)
+        fields = [(pool.pop(0), fresh_val()) for _ in range(nf)]
+        present = [n for n, _ in fields]
+        ops = []
+        for _ in range(rng.below(4)):
+            k = rng.below(9)
+            if k == 0:
+                ops.append(("map",))
+            elif k == 1:
+                ops.append(("map_values",))
+            elif k == 2 and present:
+                ops.append(("update", present[rng.below(len(present))], fresh_val()))
+            elif k == 3 and len(present) > 1:
+                ops.append(("remove", present.pop(rng.below(len(present)))))
+            elif k == 4:
+                ops.append(("freeze",))
+            elif k == 5:
+                ops.append(("filter",))
+            elif k == 6:
+                ops.append(("rebuild",))
+            else:
+                n = pool.pop(0)
+                present.append(n)
+                ops.append(("insert", n, fresh_val()))
+        operands.append((fields, ops))
+    return operands
+
+
+def dict_nickel(operands, observe):
+    parts = []
+    for fields, ops in operands:
+        src = "{ %s }" % ", ".join("%s = %d" % (_q(n), v) for n, v in fields)
+        for op in ops:
+            if op[0] == "map":
+                src += " |> std.record.map (fun _k v => v + 100)"
+            elif op[0] == "map_values":
+                src += " |> std.record.map_values (fun v => v)"
+            elif op[0] == "update":
+                src += " |> std.record.update %s %d" % (_q(op[1]), op[2])
+            elif op[0] == "remove":
+                src += " |> std.record.remove %s" % _q(op[1])
+            elif op[0] == "freeze":
+                src += " |> std.record.freeze"
+            elif op[0] == "filter":
+                src += " |> std.record.filter (fun _k v => v > 0)"
+            elif op[0] == "rebuild":
+                src += " |> (fun r => std.record.from_array (std.record.to_array r))"
+            elif op[0] == "insert":
+                src += " |> std.record.insert %s %d" % (_q(op[1]), op[2])
+        parts.append("(%s)" % src)
+    merged = " & ".join(parts)
+    if observe == "listing":
+        return ("let all = %s in { fields = std.record.fields all, opts = std.record.fields_with_opts all, "
+                "pairs = std.array.map (fun p => p.field) (std.record.to_array all), values = std.record.values all, "
+                "mapped = std.record.fields (std.record.map (fun _k v => v) all), "
+                "folded = std.array.fold_left (fun acc k => acc ++ \"|\" ++ k) \"\" (std.record.fields all) }" % merged)
+    if observe == "ser":
+        return ("let all = %s in { j = std.serialize 'Json all, y = std.serialize 'Yaml { inner = all }, t = std.serialize 'Toml all }" % merged)
+    return "{ merged = %s, nested = [ %s ] }" % (merged, merged)
+
+
+def dict_variants(rng, operands):
+    def perm(l):
+        l = list(l)
+        for i in range(len(l) - 1, 0, -1):
+            j = rng.below(i + 1)
+            l[i], l[j] = l[j], l[i]
+        return l
+
+    def reorder_inserts(ops):
+        # consecutive inserts are independent of one another: reverse each run
+        out, run = [], []
+        for op in ops:
+            if op[0] == "insert":
+                run.append(op)
+            else:
+                out += run[::-1] + [op]
+                run = []
+        return out + run[::-1]
+    permuted = [(perm(f), ops) for f, ops in operands]
+    swapped = operands[::-1]
+    both = [(perm(f), reorder_inserts(ops)) for f, ops in perm(operands)]
+    return [operands, permuted, swapped, both]
+
+
+def run_dict_stream(ck, rng, nk):
+    n = 150 if ck.tier == "quick" else 5000
+    progs = [gen_dict_program(rng.fork()) for _ in range(n)]
+    allv = [dict_variants(rng.fork(), p) for p in progs]
+    flat = [v for vs in allv for v in vs]
+    streams = {
+        "listing": ["full,order\t" + m.esc(dict_nickel(v, "listing")) for v in flat],
+        "serialize": ["full,order\t" + m.esc(dict_nickel(v, "ser")) for v in flat],
+        "json": ["fmt=json\t" + m.esc(dict_nickel(v, "export")) for v in flat],
+        "yaml": ["fmt=yaml\t" + m.esc(dict_nickel(v, "export")) for v in flat],
+        "toml": ["fmt=toml\t" + m.esc(dict_nickel(v, "export")) for v in flat],
+    }
+    out = {}
+    for key, ls in streams.items():
+        rc, o, err = core.run_sharded(nk, [], ls)
+        if rc:
+            ck.obligation("run:dict-" + key, "internal", False, err[-500:])
+        out[key] = o
+    names = ["as written", "literal fields permuted", "operands swapped", "operands and fields permuted, inserts reordered"]
+    nok = 0
+    for i, vs in enumerate(allv):
+        ck.case(key="dict:" + dict_nickel(vs[0], "export"), nontrivial=True)
+        ck.hist("dict_ops", str(sum(len(ops) for _, ops in vs[0])))
+        ck.hist("dict_frozen_operands", str(sum(1 for _, ops in vs[0] if any(o[0] in ("map", "map_values", "update", "remove", "freeze", "insert") for o in ops))))
+        rep = {"dict": True, "variants": {nm: {k: dict_nickel(v, k) for k in ("listing", "ser", "export")} for nm, v in zip(names, vs)}}
+        for key in streams:
+            rs = out[key][4 * i:4 * i + 4]
+            rep[key] = rs
+            ok_rs = [r for r in rs if r.startswith("OK")]
+            nok += len(ok_rs) == 4
+            if ok_rs and (len(ok_rs) != 4 or len(set(rs)) != 1):
+                ck.violation("order:dict-" + key, "%s of a merge of dictionaries depends on written order: %s   [%s]" % (
+                    key, " | ".join(r[:120] for r in sorted(set(rs))), dict_nickel(vs[0], "listing" if key == "listing" else "export")[:300]), rep)
+        if i < 2:
+            ck.sample({"dictionary program": dict_nickel(vs[0], "listing"), "listing": out["listing"][4 * i][:300]})
+    ck.coverage["dictionary_programs"] = len(flat)
+    ck.coverage["dictionary_all_variants_ok"] = nok
+    if nok < len(allv) * len(streams) * 0.8:
+        ck.obligation("generator:dict-stream-mostly-ok", "internal", False, "only %d of %d observations succeed" % (nok, len(allv) * len(streams)))
+
+
 def run(ck):
     ck.coq("Props.C15", clean=(ck.tier == "thorough"))
     if not ck.harness(["nkeval"]):
@@ -90,9 +248,10 @@ def run(ck):
         if i < 3:
             ck.sample({"program": g.nickel(e), "permuted": g.nickel(vs[1]), "json": out["json"][4 * i][:200], "listing": out["listing"][4 * i][:200]})
     ck.coverage["programs"] = len(flat)
-    ck.coverage["rule"] = "program = record expression (literals, merges, nested) from the mostly-valid stream; 4 variants each (as written, literal fields permuted, merge operands swapped, both); observed: JSON/YAML/TOML text, std.record.fields/fields_with_opts/to_array/values; second run in separate processes; non-trivial = size >= 6"
+    ck.coverage["rule"] = "program = record expression (literals, merges, nested) from the mostly-valid stream; 4 variants each (as written, literal fields permuted, merge operands swapped, both); observed: JSON/YAML/TOML text, std.record.fields/fields_with_opts/to_array/values; second run in separate processes; non-trivial = size >= 6. Dictionary stream (direct oracle only): 2-3 operands, each a literal piped through std.record.{map,map_values,insert,remove,update,freeze,filter,from_array . to_array} (the operations that freeze / rebuild the field map), field names from a pool of clashing spellings (\"7\"/\"07\"/\"+7\", case, padding, blanks), merged; observed: fields / fields_with_opts / to_array / values / fields after map / a fold over fields, std.serialize in 3 formats, and the exported JSON/YAML/TOML of the merge at top level and inside an array; 4 variants (as written, literal fields permuted, operands swapped, everything permuted + independent inserts reordered)"
     ck.coverage["partial"] = "determinism across processes is observed not proved"
     ck.trusted += ["extraction: ExtrOcamlBasic only", "harness bin nkeval"]
+    run_dict_stream(ck, rng, nk)
     mergemech.run(ck, "C15")      # mechanism level: Props.C15_mech + map-order tie (checks/mergemech.py)
 
 
@@ -102,6 +261,15 @@ def replay(ck, path):
     if obj.get("mech"):
         return mergemech.replay(ck, obj)
     if not ck.harness(["nkeval"]):
+        return
+    if obj.get("dict"):
+        nk = core.harness_bin("nkeval")
+        for key, flag in (("listing", "full,order"), ("ser", "full,order"), ("export", "fmt=json"), ("export", "fmt=yaml"), ("export", "fmt=toml")):
+            rc, o, err = core.run_lines(nk, [], ["%s\t%s" % (flag, m.esc(v[key])) for v in obj["variants"].values()])
+            ok = [r for r in o if r.startswith("OK")]
+            ck.case(key=key + flag)
+            if ok and (len(ok) != len(o) or len(set(o)) != 1):
+                ck.violation("order:dict-" + key, "output depends on written order: " + " | ".join(sorted(set(o)))[:300], obj)
         return
     progs = list(obj["variants"].values())
     for fmt in ("json", "yaml", "toml"):
